@@ -289,7 +289,10 @@ class ATP_Store:
 
             # Cannot afford operation
             if not self.silent:
-                print(f"💀 [Metabolism] APOPTOSIS WARNING: Insufficient {energy_type.value} for {operation}")
+                # The operation label is caller-supplied text: escape what the console cannot encode
+                # (e.g. lone surrogates) so that a refused spend still reports failure instead of raising.
+                shown = str(operation).encode("utf-8", "backslashreplace").decode("utf-8")
+                print(f"💀 [Metabolism] APOPTOSIS WARNING: Insufficient {energy_type.value} for {shown}")
             self._failed_operations += 1
             self._record_transaction(energy_type, 0, operation, False)
             return False
